@@ -62,6 +62,7 @@ var isoFields = []isoField{
 	{"alias", isoExec("(catch(stream_property(_, alias(out1)), _, fail) -> true ; open('@DIR@/iso-@WHO@-alias.txt', write, _, [alias(out1)]))."), "(catch(stream_property(_, alias(out1)), _, fail) -> V = yes ; V = no).", "yes"},
 	{"output", isoExec("open('@DIR@/iso-@WHO@-out.txt', write, S), set_output(S)."), "current_output(S), (stream_property(S, alias(A)) -> V = A ; V = none).", "none"},
 	{"input", isoExec("open('@DIR@/iso-in.txt', read, S), set_input(S)."), "current_input(S), (stream_property(S, alias(A)) -> V = A ; V = none).", "none"},
+	{"std_input", isoExec("catch(close(user_input), _, true)."), "(catch(stream_property(_, alias(user_input)), _, fail) -> V = yes ; V = no).", "no"},
 }
 
 func isoObserve(p *prolog.Interpreter, f isoField) string {
@@ -110,11 +111,17 @@ func isovmHandle(c map[string]J) map[string]J {
 	if enums {
 		return isoEnumHistory(hist, field, dir, input)
 	}
-	for _, mode := range []string{"sequential", "concurrent"} {
+	// third mode: interpreters created WITHOUT a reader and a writer (New(nil, nil)) - their standard streams must be their own, too
+	for _, mode := range []string{"sequential", "concurrent", "sequential, interpreters created with New(nil, nil)"} {
+		nilIO := strings.Contains(mode, "nil")
 		outs := map[string]*strings.Builder{"A": {}, "B": {}, "C": {}}
 		vms := map[string]*prolog.Interpreter{}
 		for _, n := range []string{"A", "B", "C"} {
-			vms[n] = prolog.New(strings.NewReader(""), outs[n])
+			if nilIO {
+				vms[n] = prolog.New(nil, nil)
+			} else {
+				vms[n] = prolog.New(strings.NewReader(""), outs[n])
+			}
 		}
 		run := func(who string) error {
 			for _, h := range hist {
@@ -129,7 +136,7 @@ func isovmHandle(c map[string]J) map[string]J {
 			return nil
 		}
 		var errA, errB error
-		if mode == "sequential" {
+		if mode != "concurrent" {
 			// in history order
 			for _, h := range hist {
 				m := h.(map[string]J)
@@ -184,6 +191,9 @@ func isovmHandle(c map[string]J) map[string]J {
 		}
 		// output goes to the interpreter's own sink
 		for _, who := range []string{"A", "B"} {
+			if nilIO {
+				break // nothing can be written without a writer
+			}
 			redirected := sees[who].(map[string]J)["output"] == "mut"
 			_ = vms[who].QuerySolution("write(" + strings.ToLower(who) + "x).").Err()
 			got := outs[who].String()
